@@ -111,3 +111,89 @@ with vhas_fb (v : value) {struct v} : bool :=
   | _ => false
   end.
 
+
+(* ---------- the same fold, logging every call of a render function: (operator, left argument, right argument) ---------- *)
+Definition call := (operator * string * string)%type.
+
+Section Traced.
+Variable o2 : oracle2.
+Variable fns : operator -> option (string -> string -> out sres).
+
+Fixpoint render_tr (e : expr) {struct e} : out (sres * list call) :=
+  match e with
+  | E l op r _ _ =>
+    do ls <- serialize_tr l;
+    match ls with
+    | ((_, Some er), tl) => Ret (("", Some er), tl)
+    | ((lf, None), tl) =>
+      do rs_ <- serialize_tr r;
+      match rs_ with
+      | ((_, Some er), tr) => Ret (("", Some er), (tl ++ tr)%list)
+      | ((rt, None), tr) =>
+        let lf := wrap_if (negb (no_wrap_op op) && negb (is_simple l)) lf in
+        let rt := wrap_if (negb (no_wrap_op op) && negb (is_simple r)) rt in
+        match fns op with
+        | None => Ret (("", Some "unable to render operator"), (tl ++ tr)%list)
+        | Some fn => do x <- fn lf rt; Ret (x, (tl ++ tr ++ [(op, lf, rt)])%list)
+        end
+      end
+    end
+  end
+with serialize_tr (v : value) {struct v} : out (sres * list call) :=
+  match v with
+  | VNil => Ret (("", None), [])
+  | VExp e => render_tr e
+  | VList l =>
+      (fix each (l : list expr) (acc : list string) (tr : list call) : out (sres * list call) :=
+         match l with
+         | [] => Ret ((join ", " (rev acc), None), tr)
+         | x :: rest =>
+             do s <- render_tr x;
+             match s with
+             | ((s', Some er), t) => Ret ((s', Some er), (tr ++ t)%list)
+             | ((s', None), t) => each rest (s' :: acc) (tr ++ t)%list
+             end
+         end) l [] []
+  | VBound mn mx incl =>
+      do a <- serialize_tr mn;
+      match a with
+      | ((_, Some er), ta) => Ret (("", Some er), ta)
+      | ((smin, None), ta) =>
+        do b <- serialize_tr mx;
+        match b with
+        | ((_, Some er), tb) => Ret (("", Some er), (ta ++ tb)%list)
+        | ((smax, None), tb) => Ret (((if incl then "[" ++ smin ++ ", " ++ smax ++ "]" else "(" ++ smin ++ ", " ++ smax ++ ")"), None), (ta ++ tb)%list)
+        end
+      end
+  | VCol c => Ret (ser_column c, [])
+  | VStr s => Ret (("'" ++ replace_char "'"%char "''" s ++ "'", None), [])
+  | VInt z => Ret ((z_to_string z, None), [])
+  | VFloat f => Ret ((fmt_v o2 f, None), [])
+  | VBool b => Ret ((bool_str b, None), [])
+  end.
+
+Fixpoint ser_list_tr (l : list expr) (acc : list string) (tr : list call) : out (sres * list call) :=
+  match l with
+  | [] => Ret ((join ", " (rev acc), None), tr)
+  | x :: rest =>
+      do s <- render_tr x;
+      match s with
+      | ((s', Some er), t) => Ret ((s', Some er), (tr ++ t)%list)
+      | ((s', None), t) => ser_list_tr rest (s' :: acc) (tr ++ t)%list
+      end
+  end.
+Lemma serialize_tr_list l : serialize_tr (VList l) = ser_list_tr l [] [].
+Proof. destruct l; reflexivity. Qed.
+
+(* the operators of the nodes of a tree in post-order: left subtree, right subtree, the node *)
+Fixpoint postorder (e : expr) {struct e} : list operator :=
+  match e with E l op r _ _ => (postorder_v l ++ postorder_v r ++ [op])%list end
+with postorder_v (v : value) {struct v} : list operator :=
+  match v with
+  | VExp e => postorder e
+  | VList l => (fix each (l : list expr) : list operator := match l with [] => [] | x :: rest => (postorder x ++ each rest)%list end) l
+  | VBound a b _ => (postorder_v a ++ postorder_v b)%list
+  | _ => []
+  end.
+
+End Traced.
